@@ -669,7 +669,7 @@ impl Grid {
 
     pub fn col_tab(&mut self) {
         self.pos.col -= self.pos.col % 8;
-        self.pos.col += 8;
+        self.pos.col = self.pos.col.saturating_add(8);
         self.col_clamp();
     }
 
